@@ -133,7 +133,8 @@ type blockCrypt struct {
 	encbuf    []byte // encryption working buffer
 	decbuf    []byte // decryption working buffer
 	block     cipher.Block
-	blockSize int // cached block size
+	decBlock  cipher.Block // cipher used by Decrypt: block itself unless the cipher object is not safe for concurrent use
+	blockSize int          // cached block size
 }
 
 //go:nosplit
@@ -146,14 +147,20 @@ func (c *blockCrypt) Encrypt(dst, src []byte) {
 //go:nosplit
 func (c *blockCrypt) Decrypt(dst, src []byte) {
 	c.decMu.Lock()
-	decrypt(c.block, dst, src, c.decbuf)
+	decrypt(c.decBlock, dst, src, c.decbuf)
 	c.decMu.Unlock()
 }
 
 func newBlockCrypt(block cipher.Block) BlockCrypt {
+	return newBlockCryptPair(block, block)
+}
+
+// newBlockCryptPair is newBlockCrypt with a separate cipher object (same key) for Decrypt
+func newBlockCryptPair(block, decBlock cipher.Block) BlockCrypt {
 	blockSize := block.BlockSize()
 	return &blockCrypt{
 		block:     block,
+		decBlock:  decBlock,
 		blockSize: blockSize,
 		encbuf:    make([]byte, blockSize),
 		decbuf:    make([]byte, 2*blockSize),
@@ -199,7 +206,14 @@ func NewSM4BlockCrypt(key []byte) (BlockCrypt, error) {
 	if err != nil {
 		return nil, err
 	}
-	return newBlockCrypt(block), nil
+	// The sm4 cipher object keeps scratch buffers inside itself and is not safe for
+	// concurrent use. Encrypt and Decrypt hold different mutexes and run side by side
+	// (sender and receiver goroutines of a session), so each direction gets its own object.
+	decBlock, err := sm4.NewCipher(key)
+	if err != nil {
+		return nil, err
+	}
+	return newBlockCryptPair(block, decBlock), nil
 }
 
 // NewTwofishBlockCrypt https://en.wikipedia.org/wiki/Twofish
